@@ -127,8 +127,13 @@ class SvsInst:
                 # Skip malformed entries
                 continue
             # Re-encode the components: the same name with a non-minimal TLV length is the same node
-            rsv_id = enc.Name.to_bytes([enc.Component.from_bytes(enc.Component.get_value(c), enc.Component.get_type(c))
-                                        for c in rsv.node_id])
+            try:
+                rsv_id = enc.Name.to_bytes([enc.Component.from_bytes(enc.Component.get_value(c),
+                                                                      enc.Component.get_type(c))
+                                            for c in rsv.node_id])
+            except ValueError:
+                # A type number no name component can have: a malformed entry as well
+                continue
             rsv_seq = rsv.seq_no
             if rsv_id == self.self_node_id and rsv_seq > self.self_seq:
                 self.logger.error('Remote side has more local data for local node.')
